@@ -23,7 +23,8 @@ let () =
           let out =
             try
               (match kind with
-               | "flw" -> Flw_driver.run_case rest
+               | "flw" -> Flw_driver.via_logger := false; Flw_driver.run_case rest
+               | "flwl" -> Flw_driver.via_logger := true; Flw_driver.run_case rest
                | "tryfrom" -> Flw_driver.run_tryfrom rest
                | "conc" -> "replayed-by-the-oracle # ."
                | "lh" -> Fmt_driver.run_lh rest
